@@ -273,6 +273,10 @@ func init() {
 	cfgs := c01cfgs()
 	// decode: documents x destination types x configs
 	xsuites["dec"] = &xsuite{"dec", func(c *ev.Ctx, thorough bool, emit func(func() string, string) bool) {
+		stopped := !xfieldCases(c, cfgs[:2], emit)
+		if stopped {
+			return
+		}
 		c01docs(c, thorough, func(doc []byte) bool {
 			if tailDependent(doc) {
 				return true
@@ -290,6 +294,7 @@ func init() {
 					}
 					ti, doc := ti, doc
 					if !emit(func() string { return fmt.Sprintf("%s|%s|%x", cfg.name, dests[ti].Name, doc) }, obs) {
+						stopped = true
 						return false
 					}
 				}
@@ -301,6 +306,10 @@ func init() {
 	// malformed documents must be rejected; documents that are only invalid inside string
 	// literals (escapes, control characters, UTF-8) are outside the statement
 	xsuites["dec11"] = &xsuite{"dec11", func(c *ev.Ctx, thorough bool, emit func(func() string, string) bool) {
+		stopped := !xfieldCases(c, cfgs[:2], emit)
+		if stopped {
+			return
+		}
 		c01docs(c, thorough, func(doc []byte) bool {
 			valid := json.Valid(doc) && !docFiltered(doc)
 			malformed := !lenientValid(doc)
@@ -321,6 +330,7 @@ func init() {
 					}
 					ti, doc := ti, doc
 					if !emit(func() string { return fmt.Sprintf("%s|%s|%x", cfg.name, dests[ti].Name, doc) }, obs) {
+						stopped = true
 						return false
 					}
 				}
@@ -512,6 +522,24 @@ func init() {
 			}
 		}
 	}}
+}
+
+// xfieldCases: the field-lookup stratum of C01 (wide structs x documents naming each field)
+// as suite cases; all its documents are valid JSON.
+func xfieldCases(c *ev.Ctx, cfgs []c01cfg, emit func(func() string, string) bool) (completed bool) {
+	completed = true
+	c01fieldCases(c, func(t gen.TypeCase, doc []byte) bool {
+		for ci := range cfgs {
+			cfg := &cfgs[ci]
+			obs := c01observe(cfg, t.T, doc)
+			if !emit(func() string { return fmt.Sprintf("%s|%s|%x", cfg.name, t.Name, doc) }, obs) {
+				completed = false
+				return false
+			}
+		}
+		return true
+	})
+	return
 }
 
 // tailDependent: the document ends in "-0". The pre-assembled number scanner reads one byte
